@@ -169,8 +169,13 @@ impl Ord for Activation {
         // First compare by salience (higher is better)
         match self.salience.cmp(&other.salience) {
             Ordering::Equal => {
-                // Then by creation time (earlier is better = reverse)
-                other.created_at.cmp(&self.created_at)
+                // Then by creation time (earlier is better = reverse); two activations
+                // can carry the same instant on a coarse clock, so fall back to the
+                // insertion id to keep "earlier first" instead of an arbitrary heap order
+                other
+                    .created_at
+                    .cmp(&self.created_at)
+                    .then_with(|| other.id.cmp(&self.id))
             }
             other_order => other_order,
         }
